@@ -367,7 +367,7 @@ async fn one_config(a: Args, idx: usize, proto: Proto, transport: Transport) -> 
 }
 
 /// An always-answering target: greets with 200 bytes at once, then echoes.
-async fn start_greeter() -> Option<(u16, tokio::task::JoinHandle<()>, Arc<std::sync::atomic::AtomicU64>)> {
+pub(super) async fn start_greeter() -> Option<(u16, tokio::task::JoinHandle<()>, Arc<std::sync::atomic::AtomicU64>)> {
     use tokio::io::{AsyncReadExt, AsyncWriteExt};
     let l = tokio::net::TcpListener::bind("127.0.0.1:0").await.ok()?;
     let port = l.local_addr().ok()?.port();
